@@ -32,7 +32,7 @@ def apply(model: Model, mu: M) -> str | None:
         return None
     text = f.text
     if mu.qual:
-        node = f.defs.get(mu.qual)
+        node = f.raw_defs.get(mu.qual)
         if node is None:
             return None
         lines = text.splitlines(keepends=True)
